@@ -25,10 +25,10 @@ theorem Dead.use {p : Pool} (h : Dead p) (u : Use) :
   have hxAF : ∀ q : Pool, Dead q → Dead (xAF q) ∧ finOrders (xAF q).tr = finOrders q.tr := by
     intro q ⟨hq1, hq2⟩
     refine ⟨⟨by simp [xAF, afState, hq1], by simp [xAF, afState]⟩, ?_⟩
-    simp [xAF, afState, afOut, hq1, hq2, droppedEvs, finEvs]
+    simp [xAF, afState, afOut, hq1, hq2, sortDesc, finEvs]
   have hskip : Dead (skipAF p) ∧ finOrders (skipAF p).tr = finOrders p.tr := by
     refine ⟨⟨by simp [skipAF, afState, hreg], by simp [skipAF, afState]⟩, ?_⟩
-    simp [skipAF, afState, afOut, hreg, hpf, skipEvs]
+    simp [skipAF, afState, afOut, hreg, hpf, sortDesc, skipEvs]
   have hxPR : ∀ q : Pool, Dead q → Dead (xPR q) ∧ finOrders (xPR q).tr = finOrders q.tr := by
     intro q hq
     exact ⟨hq, by simp [xPR, finOrders_append, finOrders_relEvs]⟩
@@ -86,8 +86,28 @@ theorem callKilled_log (s : Rt) (p : Pool) (rest : List Pool) (hs : s.live = p :
   rw [hlog, delta_of_append (popRel_tr hpf), finOrders_append, relOrders_append, finOrders_filter_log,
     relOrders_filter_log]
   constructor
-  · rw [finOrders_append, finOrders_append, finOrders_skipEvs, finOrders_skipEvs, finOrders_relEvs]; simp
-  · rw [relOrders_append, relOrders_append, relOrders_skipEvs, relOrders_skipEvs, relOrders_relEvs]; simp
+  · rw [finOrders_append, finOrders_skipEvs, finOrders_relEvs]; simp
+  · rw [relOrders_append, relOrders_skipEvs, relOrders_relEvs]; simp
+
+/-- the runtime log after an isolating CallContext that ends normally or by a Lua error: exactly what
+`ExtractAllMarkedFinalize` hands out for the current pool is finalised -/
+theorem callDone_log (s : Rt) (p : Pool) (rest : List Pool) (hs : s.live = p :: rest)
+    (hf : s.fatal = false) (hpf : p.fatal = false) :
+    finOrders (rstep s .callDone).log = finOrders s.log ++ ords (afOut p) := by
+  have hp' : (ClonePool.use p .finAll).fatal = false := by
+    rw [use_of_not_fatal hpf]; simpa [xAF, afState] using hpf
+  have h1 : prim s .finAll = { s with live := (ClonePool.use p Use.finAll) :: rest,
+                                      log := s.log ++ (delta p (ClonePool.use p Use.finAll)).filter isLogEv,
+                                      fatal := false } := by
+    unfold GcRuntime.prim
+    simp only [hf, Bool.false_eq_true, if_false]
+    unfold onCurrent; rw [hs]; simp [hf, hp']
+  show finOrders (prim (prim s .finAll) .popRel).log = _
+  have h2 := (callKilled_log (prim s .finAll) (ClonePool.use p .finAll) rest (by rw [h1]) (by rw [h1]) hp').1
+  have h2' : finOrders (prim (prim s .finAll) .popRel).log = finOrders (prim s .finAll).log := h2
+  rw [h2', h1]
+  show finOrders (s.log ++ (delta p (ClonePool.use p .finAll)).filter isLogEv) = _
+  rw [delta_of_append (finAll_tr hpf), finOrders_append, finOrders_filter_log, finOrders_finEvs]
 
 theorem count_one_of_nodup_mem {l : List Nat} (hn : l.Nodup) {a : Nat} (h : a ∈ l) : l.count a = 1 := by
   induction l with
